@@ -15,6 +15,12 @@ LEVEL = "fault_enumeration"
 def run(rep, tier, replay):
     rng = random.Random(vlib.seed())
     exe = vlib.build_impl()
+    # (M+G) spec/Parser.tla: the header/trailer parser transcribed and checked against the stream grammar; every stimulus
+    # (valid shapes, every single-bit flip outside payloads, every truncation) replayed through the real parse() under
+    # chunkings that suspend it at every word and exactly at stream ends
+    import inproc, os
+    for why, beh in inproc.parse_leg(rep, os.path.join(os.path.dirname(exe), "src"), tier):
+        rep.violation(why, dict(kind="inproc", cls="parse-replay", harness="replay_parse", stimulus=beh))
     bzgen.calibrate(rep, vlib.seed() + 5, 4 if tier == "quick" else 12)
     files = []
     spec = [it for it in fmtsession.spec_items("valid", 60, vlib.seed() + 6) if it.valid and not it.exception]
